@@ -396,6 +396,9 @@ pub struct BulkCase {
     pub remove_mode: u8,
     pub remove_count: u16,
     pub removes: Vec<u16>,
+    /// tags excluded by open findings when the case was generated (witnesses carry their own list)
+    #[serde(default)]
+    pub excluded: Vec<String>,
 }
 
 pub fn run_bulk(c: &BulkCase) -> CaseOut {
@@ -505,6 +508,17 @@ fn bulk_interpret(c: &BulkCase, sc: &Scratch, out: &mut CaseOut) -> Option<Failu
         2 => model.keys().take(c.remove_count as usize).copied().collect(),
         _ => c.removes.iter().map(|k| *k as u64).collect(),
     };
+    // removals from a tree of height >= 3 lose routing (open finding F-C10-removal-misroute-at-height-3): while it is
+    // excluded the removal phase runs on lower trees only
+    let victims = if h >= 3 && !victims.is_empty() && c.excluded.iter().any(|t| t == "bulk.removals_at_height3") {
+        out.excluded.push("bulk.removals_at_height3".into());
+        vec![]
+    } else {
+        if h >= 3 && !victims.is_empty() {
+            tags.push("bulk.removals_at_height3".into());
+        }
+        victims
+    };
     let mut tail_seen = tree.pages().page_zero().last_free_page;
     for (i, k) in victims.iter().enumerate() {
         call_begin(|| format!("bulk remove #{i} key {k}"));
@@ -545,7 +559,7 @@ fn bulk_interpret(c: &BulkCase, sc: &Scratch, out: &mut CaseOut) -> Option<Failu
     None
 }
 
-pub fn gen_bulk(max_keys: usize, descending: bool) -> BoxedStrategy<BulkCase> {
+pub fn gen_bulk(max_keys: usize, descending: bool, excluded: Vec<String>) -> BoxedStrategy<BulkCase> {
     (
         (prop_oneof![4 => Just(4096u32), 1 => Just(8192u32)], prop_oneof![Just(3u8), Just(4u8)], 1u8..4, Just(4000u32)).prop_map(|(page_size, min_keys, siblings, cache)| Cfg { page_size, cache, pool: 1, min_keys, siblings }),
         (0u8..3).prop_map(move |o| if o == 1 && !descending { 2 } else { o }),
@@ -555,7 +569,7 @@ pub fn gen_bulk(max_keys: usize, descending: bool) -> BoxedStrategy<BulkCase> {
         0u16..1200,
         prop::collection::vec(any::<u16>(), 0..600),
     )
-        .prop_map(|(cfg, order, payload, inserts, remove_mode, remove_count, removes)| BulkCase { cfg, order, payload, inserts, remove_mode, remove_count, removes })
+        .prop_map(move |(cfg, order, payload, inserts, remove_mode, remove_count, removes)| BulkCase { cfg, order, payload, inserts, remove_mode, remove_count, removes, excluded: excluded.clone() })
         .boxed()
 }
 
@@ -630,7 +644,7 @@ pub fn run_shard(ctx: &mut ShardCtx) {
     let nm = ctx.share(ctx.tier.pick(12_000, 300_000));
     ctx.search("tree_ops", gen_mixed(), nm, &|c: &TreeCase| run_case(c, 1));
     let nb = ctx.share(ctx.tier.pick(64, 2_000));
-    ctx.search("tree_bulk", gen_bulk(ctx.limit("bulk_keys", ctx.tier.pick(3600, 9000)) as usize, !ctx.excluded("bulk.descending")), nb, &run_bulk);
+    ctx.search("tree_bulk", gen_bulk(ctx.limit("bulk_keys", ctx.tier.pick(3600, 9000)) as usize, !ctx.excluded("bulk.descending"), ctx.excludes.keys().cloned().collect()), nb, &run_bulk);
 }
 
 pub fn replay(kind: &str, case: &Value) -> CaseOut {
